@@ -433,3 +433,15 @@ void _ZNSt14basic_ifstreamIcSt11char_traitsIcEE4openEPKcSt13_Ios_Openmode(void *
   if (!_ZNSt13basic_filebufIcSt11char_traitsIcEE4openEPKcSt13_Ios_Openmode((uint8_t *)o + 16, name, mode | 8)) vs_ios(o)->state |= VS_FAIL;
   else vs_ios(o)->state = 0;
 }
+
+/* harness API: make a compiler-laid-out input stream (a std::ifstream constructed by the code under test, whose
+ * open call the harness replaces) read the tokens written to the model ostream `src`. */
+void vs_attach_input(void *stream, void *src) {
+  struct vs_ios *ios = vs_ios(stream);
+  struct vs_state *st = ios->st;
+  st->buf = vs_st(src)->buf;
+  st->rpos = 0;
+  st->sink = 0;
+  st->is_open = 1;
+  ios->state = 0;
+}
